@@ -6,7 +6,7 @@ from props import _hrs
 SPEC = {
     "uses_gen": ["CoinHours", "CoinLoops"],   # closes over Mathutil
     "cmd": "c03",
-    "budget": (500, 12000),
+    "budget": (300, 12000),
     "header": "From Sky Require Import Base.Uint Model.ArithSpec Model.HoursSpec.\nOpen Scope Z_scope.",
     "gen_header": "From Sky Require Import Gen.Mathutil Gen.CoinHours Model.Hours.",
     "corr": "C03_corr.v",
@@ -19,13 +19,15 @@ SPEC = {
         "block": ("mism_block", "pf_block"),
         "witness": ("mism_witness", "pf_witness"),
         "mono": ("mism_mono", "pf_mono"),
+        "chain": ("mism_chain", "pf_chain"),       # node level: stored blocks of a real visor (arbitrating + follower)
+        "supply": (None, "pf_supply"),             # node level: hours held by the unspent set never grow
     },
     "search_seeds": 2,
     "trusted_base": [
         "translator /verif/translator (Go->Gallina) for UxOut.CoinHours, AddUint64, MultUint64 and (loops over slices, Gen/CoinLoops.v) VerifyTransactionHoursSpending, VerifyTransactionCoinsSpending, Transaction.OutputHours, UxArray.CoinHours — regenerated on this run, validated by C31 (groups l_*) and by the mono group here",
         "the loops of Model/Hours.v (VerifyTransactionHoursSpending, OutputHours, UxArray.CoinHours, VerifyTransactionCoinsSpending) are PROVED equal to the regenerated Gen/CoinLoops.v for all inputs (C03_*_is_translated, Proofs/HoursRefine.v) and also compared with the running code on this run's cases; still hand-written and only compared: the order of checks in VerifySingleTxnHardConstraints / VerifyBlockTxnConstraints (src/transaction/verify.go)",
         "structural / signature checks (txn.Verify, VerifyInputSignatures, duplicate outputs) enter the model as the datum `pre` computed by the implementation (subject of C09); theorems hold for every `pre`",
-        "function level: a block / pool history is not replayed; that the node calls these checkers on every block transaction and on pool admission is read from visor/blockchain.go, not proved",
+        "node level (groups chain, supply): short histories of publisher-signed blocks on a real visor.Visor (arbitrating publisher and follower, bolt file) through Visor.ExecuteSignedBlock; the stored head block is re-read and every stored transaction / the unspent set's hours are checked; longer histories, reorganisation-free by construction. Pool admission (InjectForeignTransaction) is covered at function level only",
         "harness generator, Coq-term printer, error naming by sentinel identity or constant message prefix",
     ],
     "assumptions": [
